@@ -647,11 +647,13 @@ theorem lemma_whereBad (s : St) (m : Mon) (hR : Rel s m) (i : Nat) (r : RouteId)
     have hres : mutateRes s.core r = .na := by simp only [mutateRes, hobj', Bool.not_false, ↓reduceIte]
     rw [hres]; simp [hmem, mutationOK]
 
-/-- a request parked at `serve.frozen` consults the tree -/
-theorem lemma_lookup (s : St) (m : Mon) (hR : Rel s m) (i : Nat) (t : RouteId) (v : Bool)
+/-- a request parked at `serve.frozen` consults the tree (a request whose context was done on arrival only
+    returns: serving has begun — the monitor is told so, and it knew already) -/
+theorem lemma_lookup (s : St) (m : Mon) (hR : Rel s m) (i : Nat) (t : RouteId) (v g : Bool)
     (hs : s.status[i]? = some .atFrozen) :
-    ∃ m', m.next (.request t v)
-        { actor := i, vis := visOf (setStatus s i .finished) i, out := .hit (lookup s.core t v) } = some m' ∧
+    ∃ m', m.next (.request t v g)
+        { actor := i, vis := visOf (setStatus s i .finished) i,
+          out := if g then .gone else .hit (lookup s.core t v) } = some m' ∧
       Rel (setStatus s i .finished) m' := by
   have hi : i < s.status.length := by
     rcases Nat.lt_or_ge i s.status.length with h | h
@@ -660,9 +662,15 @@ theorem lemma_lookup (s : St) (m : Mon) (hR : Rel s m) (i : Nat) (t : RouteId) (
   rw [lemma_setStatus_vis_finished _ i hi]
   have hd : s.core.fpc = .done := hR.frozenPt ⟨i, hs⟩
   have hfr : s.core.frozen = true := hR.inv.frozen_iff.2 (by simp [hd])
+  have hsb : m.servingBegun = true := by rw [hR.serving]; exact hfr
+  have hm : ({ m with servingBegun := true } : Mon) = m := by
+    cases m; simp only [Mon.mk.injEq, and_true] at *; exact hsb.symm
   refine ⟨m, ?_, lemma_rel_setStatus s m hR i _ (Or.inl (by simp))⟩
-  rw [lemma_lookup_done s.core hR.inv hd]
-  simp [Mon.next, expected, hR.serving, hfr, hR.accepted, hR.cons]
+  cases g with
+  | true => simp [Mon.next, hm]
+  | false =>
+    rw [lemma_lookup_done s.core hR.inv hd]
+    simp [Mon.next, expected, hR.serving, hfr, hR.accepted, hR.cons]
 
 /-! ### every scheduler step -/
 
@@ -683,11 +691,11 @@ theorem lemma_stepActor (kinds : List Kind) (s : St) (m : Mon) (hR : Rel s m) (i
   | finished => cases k <;> exact lemma_quiet m _ i s hR
   | atEntry =>
     cases k with
-    | request t v => exact lemma_callFreeze s m hR i _ hi
+    | request t v g => exact lemma_callFreeze s m hR i _ hi
     | _ => exact lemma_quiet m _ i s hR
   | atFrozen =>
     cases k with
-    | request t v => exact lemma_lookup s m hR i t v hs
+    | request t v g => exact lemma_lookup s m hR i t v g hs
     | _ => exact lemma_quiet m _ i s hR
   | atChecked =>
     cases k with
@@ -695,7 +703,7 @@ theorem lemma_stepActor (kinds : List Kind) (s : St) (m : Mon) (hR : Rel s m) (i
     | _ => exact lemma_quiet m _ i s hR
   | start =>
     cases k with
-    | request t v =>
+    | request t v g =>
       exact lemma_quiet m _ i _ (lemma_rel_setStatus s m hR i _ (Or.inl (by simp)))
     | freeze => exact lemma_callFreeze s m hR i _ hi
     | warmup =>
